@@ -3,6 +3,7 @@
 from __future__ import annotations
 
 import os
+import sys
 from collections.abc import Callable
 from functools import partial
 from functools import wraps
@@ -11,6 +12,8 @@ from typing import TYPE_CHECKING
 from typing import Any
 from typing import TypeVar
 from typing import cast
+
+from glotaran.utils import verif_trace as _vt
 
 DecoratedFunc = TypeVar("DecoratedFunc", bound=Callable[..., Any])  # decorated function
 
@@ -118,16 +121,32 @@ def protect_from_overwrite(path: str | os.PathLike[str], *, allow_overwrite: boo
         "use the argument 'allow_overwrite=True'."
     )
     path = Path(path).resolve()
+    if _vt.ENABLED:
+        _obs = {
+            "path": path.as_posix(),
+            "allow": bool(allow_overwrite),
+            "caller": id(sys._getframe(1)),
+            "kind": "file" if path.is_file() else ("dir" if path.is_dir() else "absent"),
+            "nonempty": bool(path.is_dir() and os.listdir(str(path))),
+        }
     if path.parent.is_file() is False:
         path.parent.mkdir(parents=True, exist_ok=True)
     if allow_overwrite:
+        if _vt.ENABLED:
+            _vt.emit("protect", **_obs, out="pass")
         return
     elif path.is_file():
+        if _vt.ENABLED:
+            _vt.emit("protect", **_obs, out="refuse_file")
         raise FileExistsError(f"The file {path!r} already exists. \n{user_info}")
     elif path.is_dir() and os.listdir(str(path)):
+        if _vt.ENABLED:
+            _vt.emit("protect", **_obs, out="refuse_dir")
         raise FileExistsError(
             f"The folder {path.as_posix()!r} already exists and is not empty. \n{user_info}"
         )
+    if _vt.ENABLED:
+        _vt.emit("protect", **_obs, out="pass")
 
 
 def bool_str_repr(value: Any, true_repr: str = "*", false_repr: str = "/") -> Any:
